@@ -331,6 +331,12 @@ func checkC18(raw json.RawMessage) iso.Result {
 		markers[i] = fmt.Sprintf("mk%02dz", i)
 	}
 	var srv *httptest.Server
+	// One connection per request, as from distinct clients: in actual-response mode the
+	// simulator hijacks the connection and closes it after a response that does not say
+	// "Connection: close", so a pooled connection can be reused after the server dropped it
+	// ("server closed idle connection" for a non-replayable PURGE) — a keep-alive matter that
+	// happens one-at-a-time as well and is not what C18 states.
+	tr := &http.Transport{DisableKeepAlives: true}
 	if c.Server {
 		srv = httptest.NewServer(ip)
 		defer srv.Close()
@@ -348,7 +354,7 @@ func checkC18(raw json.RawMessage) iso.Result {
 		}
 		out.Header = req.Header.Clone()
 		out.Host = "example.com"
-		res, err := http.DefaultTransport.RoundTrip(out)
+		res, err := tr.RoundTrip(out)
 		if err != nil {
 			r.panicked = "transport: " + err.Error()
 			return r
